@@ -42,7 +42,20 @@ HOSTILE = list("()[]{}'\"\\`$?!@#&|<>=:;,.~^%*+-/ \t\n\r\f\0") + [
 ]
 
 
+MACRO_OPENERS = ["f!(", "g!(a, ", "x = h!(", "f!(a)(b!(", "with! x: ", "with! x:\n    ", "with! a, b:\n  ", "$(cmd! ", "![echo! ", "!(a! ", "$[b! ", "f!(a) b ", "@(f!("]
+MACRO_PIECES = ["(", ")", "[", "]", "{", "}", ",", " ", "a", "b1", "\n", "'s'", "\"", "'", "#c", ":", "!", ";", "\n    ", "$(", "@(", "f'{", "}}", "\\\n", "1", "if", "lambda"]
+
+
+def macro_soup(rnd):
+    """raw-capture modes (call / with / subprocess macros) fed with unbalanced bracket and quote sequences: the capture keeps its own
+    bracket and indent bookkeeping next to the tokenizer's"""
+    body = "".join(rnd.choice(MACRO_PIECES) for _ in range(rnd.randint(1, 10)))
+    return rnd.choice(MACRO_OPENERS) + body + rnd.choice(["", "", "\n", ")", "]", ")\n", "\nx = 1\n"])
+
+
 def soup(rnd, n=None):
+    if n is None and rnd.random() < 0.1:
+        return macro_soup(rnd)
     n = n or rnd.randint(1, 24)
     return "".join(rnd.choice(HOSTILE) if rnd.random() < 0.7 else rnd.choice(["a", "b", "x1", "foo", "1", "2.5", "'s'", " "]) for _ in range(n))
 
